@@ -47,6 +47,7 @@ def run(ctx):
     orbit_type_labels(ctx, g)
     invariant_key(ctx, g)
     orbifold_graph_shape(ctx, g)
+    graph_labels(ctx, g)
     ctx.clauses.append("no panic from the point-group lookup (shared with C15)")
     c15.candidates(ctx, g)
     c15.point_groups(ctx, g)
@@ -435,6 +436,169 @@ def no_verdicts_justified(ctx, g):
                     bad = "the Z^3 flag is raised for a component whose invariants are not [0, 0, 0]"
     ctx.ob("T4-connected-sum-table", c.name, "bad iff second Z^3 / bad subgroups / other group", "ok" if not bad else "violation",
            "bad exactly for: a second Z^3 component, a Z^3 or trivial component failing its subgroup test, a component with any other invariants" if not bad else bad)
+
+
+def graph_labels(ctx, g):
+    """the orbifold graph is looked up by its text in a table that was produced with exactly these labels, so the parts must agree with each
+    other: orbit_type_1d answers `1*` for a branch-free orbit on a mirror and `1` for a branch-free orbit off the mirrors (decided as a table
+    over (on mirror, v)); orbifold_graph labels mirror chambers with the same `1*`, creates a node for a pair / triple exactly when its label
+    is not that `1`, rewrites `*423` to `*432`; valid_edge keeps an edge exactly when its ends differ and the target is not a `1*` node unless
+    the source is a three-letter mirror label; compress_graph merges exactly equal-labelled neighbours, keeps the class roots, and both
+    renumbering closures keep the direction (v, w) of an edge."""
+    ctx.clauses.append("orbifold graph labels and edge filter agree with each other and keep edge direction (T4, tables evaluated)")
+    ot = ctx.body(M + "orbit_type_1d")
+    bad = None
+    lits = {}
+    for bi, t in ot.calls("ToString::to_string"):
+        a = strip(norm(ot.origin(t["args"][0]), g))
+        if a[0] == "str":
+            lits[bi] = a[1]
+    fmts = [bi for bi, t in ot.calls("fmt::format")]
+    v_t = None
+    for bi, t in ot.calls("Option::<T>::unwrap"):
+        a = strip(norm(ot.origin(t["args"][0]), g))
+        if is_call(a, "DSym::v"):
+            v_t = ("call", t["callee"]["def"], (a,))
+    anyc = [("call", t["callee"]["def"], tuple(strip(norm(ot.origin(x), g)) for x in t["args"])) for bi, t in ot.calls("Iterator::any")]
+    if v_t is None or len(anyc) != 1 or len(lits) != 2:
+        bad = "orbit_type_1d: branching number, mirror test or the two literal labels not found"
+    else:
+        def val(mir, v):
+            def f(y):
+                y = strip(y)
+                if is_call(y, "Option::<T>::unwrap") and is_call(strip(y[2][0]), "DSym::v"):
+                    return v
+                if is_call(y, "Iterator::any"):
+                    return mir
+                return None
+            return f
+        table = {}
+        for mir in (0, 1):
+            for v in (1, 2, 3):
+                reached = sorted(lits[bi] for bi in reachable_sites(ot, g, set(lits), val(mir, v)))
+                table[(mir, v)] = reached
+        m1, p1 = table[(1, 1)], table[(0, 1)]
+        if len(m1) != 1 or len(p1) != 1 or m1 == p1:
+            bad = "orbit_type_1d does not answer one fixed label for v = 1 on a mirror and another one off the mirrors: %s" % table
+        elif any(table[(mir, v)] for mir in (0, 1) for v in (2, 3)):
+            bad = "orbit_type_1d answers a fixed label for an orbit with branching number > 1"
+        else:
+            MIR, PLAIN = m1[0], p1[0]
+            og = ctx.body(M + "orbifold_graph")
+            pushed = [strip(norm(og.origin(t["args"][0]), g)) for bi, t in og.calls("ToString::to_string")]
+            pushed = [x[1] for x in pushed if x[0] == "str"]
+            if MIR not in pushed:
+                bad = "orbifold_graph labels mirror chambers %s, orbit_type_1d labels mirror orbits %r" % (pushed, MIR)
+            # node creation: under ne(t, PLAIN) true
+            tests = []
+            for bi, t in og.calls():
+                n = t["callee"].get("def", "")
+                if n.endswith("PartialEq::ne") or n.endswith("PartialEq::eq"):
+                    a = [strip(norm(og.origin(x), g)) for x in t["args"]]
+                    sl = [x[1] for x in a if x[0] == "str"]
+                    if sl:
+                        tests.append((bi, n.split("::")[-1], sl[0], t))
+            skip = [x for x in tests if x[2] == PLAIN]
+            fix = [x for x in tests if x[2] not in (PLAIN, MIR)]
+            if not bad and len(skip) != 2:
+                bad = "orbifold_graph does not test the labels of pairs and triples against %r (tests: %s)" % (PLAIN, [(x[1], x[2]) for x in tests])
+            elif not bad:
+                for bi, t in og.calls("Vec::<T, A>::push"):
+                    a = [strip(norm(og.origin(x), g)) for x in t["args"]]
+                    if is_call(a[1], "orbit_type_1d") or contains(a[1], lambda y: is_call(y, "orbifold_symbol")):
+                        fa = [atom_norm(x, g) for x in og.facts_at(bi)]
+                        okp = any(x[0] == "bool" and is_call(strip(x[1]), "PartialEq::ne") == x[2] and (is_call(strip(x[1]), "PartialEq::ne") or is_call(strip(x[1]), "PartialEq::eq")) and
+                                  any(strip(z) == ("str", PLAIN) for z in strip(x[1])[2]) for x in fa)
+                        if not okp:
+                            bad = bad or "a node is created for a pair / triple without its label being different from %r" % PLAIN
+            if not bad and (len(fix) != 1 or fix[0][2] != "*423"):
+                bad = "the `*423` normalisation is missing"
+            elif not bad:
+                fb, fop, _, ft = fix[0]
+                repl = [bi for bi, t in og.calls("ToString::to_string") if strip(norm(og.origin(t["args"][0]), g)) == ("str", "*432")]
+                if len(repl) != 1:
+                    bad = "`*423` is not rewritten to `*432`"
+                else:
+                    def valf(e):
+                        def f(y):
+                            y = strip(y)
+                            if (is_call(y, "PartialEq::eq") or is_call(y, "PartialEq::ne")) and any(strip(z) == ("str", "*423") for z in y[2]):
+                                return e if is_call(y, "PartialEq::eq") else 1 - e
+                            return None
+                        return f
+                    lp = loop_containing(og, repl[0])
+                    for e in (0, 1):
+                        r = bool(reachable_sites(og, g, {repl[0]}, valf(e), start=lp[1] if lp else 0))
+                        if r != bool(e):
+                            bad = bad or "a label that %s `*423` is %s to `*432`" % ("is" if e else "is not", "rewritten" if r else "not rewritten")
+            # valid_edge
+            ve = ctx.body(M + "valid_edge")
+            ctx.scan([ve])
+            def valv(same, tw_mir, len3, star):
+                def f(y):
+                    y = strip(y)
+                    if y[0] == "field" and strip(y[1]) == ("param", 1, ve.debug.get(1, "")):
+                        return 5 if same else (5 if str(y[2]) == "0" else 6)
+                    if is_call(y, "PartialEq::ne") and any(strip(z) == ("str", MIR) for z in y[2]):
+                        return 1 - tw_mir
+                    if is_call(y, "PartialEq::eq") and any(strip(z) == ("str", MIR) for z in y[2]):
+                        return tw_mir
+                    if is_call(y, "String::len") or is_call(y, "str>::len"):
+                        return 3 if len3 else 2
+                    if is_call(y, "starts_with"):
+                        return star
+                    return None
+                return f
+            if not bad:
+                for same in (0, 1):
+                    for tw_mir in (0, 1):
+                        for len3 in (0, 1):
+                            for star in (0, 1):
+                                got = bool_results(ve, g, valv(same, tw_mir, len3, star))
+                                want = (not same) and ((not tw_mir) or (len3 and star))
+                                if got != {bool(want)} and not bad:
+                                    bad = "valid_edge: ends %s, target %s a %r node, source label %s three letters and %s with `*`: the edge is %s" % (
+                                        "equal" if same else "different", "is" if tw_mir else "is not", MIR, "of" if len3 else "not of", "starting" if star else "not starting",
+                                        "kept" if got == {True} else "dropped" if got == {False} else "undetermined %s" % sorted(got, key=str))
+                # which end is which: tv is types[edge.0], tw is types[edge.1]; the `1*` test is on the target, len / starts_with on the source
+                def end_of(t_):
+                    ix = [y for y in subterms(t_) if is_call(y, "Index::index")]
+                    return str(strip(ix[0][2][1])[2]) if ix and strip(ix[0][2][1])[0] == "field" else None
+                ends = {}
+                for bi, t in ve.calls():
+                    n = t["callee"].get("def", "").split("::")[-1]
+                    if n in ("ne", "eq", "len", "starts_with"):
+                        ends[n] = end_of(strip(norm(ve.origin(t["args"][0]), g)))
+                if not bad and not ({ends.get("ne", ends.get("eq"))} == {"1"} and ends.get("len") == "0" and ends.get("starts_with") == "0"):
+                    bad = "valid_edge tests the wrong end of the edge: the %r test must look at the target (edge.1), length and `*` at the source (edge.0): %s" % (MIR, ends)
+    # compress_graph / sort_nodes
+    cg = ctx.body(M + "compress_graph")
+    ctx.scan([cg])
+    if not bad:
+        for bi, t in cg.calls("::unite"):
+            fa = [atom_norm(x, g) for x in cg.facts_at(bi)]
+            a = [strip(norm(cg.origin(x), g)) for x in t["args"]]
+            okq = any(x[0] == "bool" and (is_call(strip(x[1]), "PartialEq::eq") == x[2]) and (is_call(strip(x[1]), "PartialEq::eq") or is_call(strip(x[1]), "PartialEq::ne")) and
+                      all(is_call(strip(z), "Index::index") for z in strip(x[1])[2]) and {strip(strip(z)[2][1]) for z in strip(x[1])[2]} == {a[1], a[2]} for x in fa)
+            if not okq:
+                bad = "compress_graph merges two neighbours without their labels being equal"
+        for bi, t in cg.calls("Vec::<T, A>::push"):
+            fa = [atom_norm(x, g) for x in cg.facts_at(bi)]
+            okr = any(x[0] == "rel" and x[1] == "Eq" and any(is_call(strip(z), "::find") for z in x[2:4]) and
+                      any(strip(z) == strip([w for w in x[2:4] if is_call(strip(w), "::find")][0])[2][1] for z in x[2:4] if not is_call(strip(z), "::find")) for x in fa)
+            if not okr and not bad:
+                bad = "compress_graph keeps a node that is not the root of its class (p.find(i) == i)"
+    for fn in ("compress_graph", "sort_nodes"):
+        okd = False
+        for c in ctx.facts.closures.get(M + fn, []):
+            r = strip(norm(ctx.facts.bodies[c].local_origin(0), g))
+            if r[0] == "agg" and r[1] == "tuple" and len(r[2]) == 2 and all(is_call(strip(z), "Index::index") for z in r[2]):
+                comps = [strip(strip(z)[2][1]) for z in r[2]]
+                okd = [str(x[2]) if x[0] == "field" else None for x in comps] == ["0", "1"]
+        if not okd and not bad:
+            bad = "%s renumbers an edge (v, w) into (new[w], new[v]) or otherwise changes its direction" % fn
+    ctx.ob("T4-graph-labels", M + "orbifold_graph", "labels / node creation / edge filter / direction", "ok" if not bad else "violation",
+           "`1*` / `1` agree between orbit_type_1d, orbifold_graph and valid_edge; nodes iff label != `1`; *423 -> *432; valid_edge table; equal-label merge; direction kept" if not bad else bad)
 
 
 def fallback_constants(ctx, g):
